@@ -20,8 +20,9 @@ ASSUMPTIONS = ["shapes use the default configuration (normalised knot vectors); 
                "str(float)/json and float() are exact inverses; '{:.18f}' loses at most 5e-19 absolute (coordinates of magnitude < 1e-3 are not generated)",
                "YAML and libconfig importers are skipped: ruamel.yaml and libconf are not installed in the sandbox",
                "containers have at most 9 elements (numbered mesh files are read back in lexicographic file-name order)"]
-THEOREM_NOTES = ("coq/Props/C14.v: json / smesh / vmesh / txt / csv round trips are [G] over the real-number instance of the token-level "
-                 "model under the codec hypothesis parse(print x) = x; documented order [G]; vmesh on the repaired reader")
+THEOREM_NOTES = ("coq/Props/C14.v: 8 theorems, all [G]: json (files, components, field list), smesh, vmesh, txt/csv round trips over the "
+                 "real-number instance of the token-level model under the codec hypothesis parse(print x) = x; txt/csv for an arbitrary codec; "
+                 "documented row/column order; vmesh on the repaired reader (fixes/C14-vmesh-last-layer.diff, committed to /repo)")
 LEVEL_TEXT = ("Coq theorems about the token-level Gallina model coq/Model/Exchange.v: for every well-formed shape (any sizes, degrees, "
               "weights != 0, any number of container elements and trims) import(export(shape)) = the same shape as a rational one, for "
               "JSON (curve, surface incl. spline/freeform/container trims and sense flags, volume, containers, delta), smesh, vmesh "
